@@ -289,3 +289,10 @@ def float_roundtrip(rng, tier):
         if kk not in best or f.get('err', 0) > best[kk].get('err', 0): best[kk] = f
     return dict(evaluations=evals, distinct_nontrivial=evals, rule='random valid group elements over the stated quaternion kinds, translations and scales; all distinct',
                 bound=f'{N} elements per (type, dtype)', failures=list(best.values())[:12], samples=samples[:4])
+
+
+# callee contract: Sim3_Log above is verified against an abstract invertible W; that W is the documented coupling matrix is the
+# contract of rxso3_Ws (stated once, in c01_exp.py) and is discharged in this check too, so that C02 does not rest on another run.
+from contracts import c01_exp as _c01
+obligation('C02.callee.rxso3_Ws', functions=[f'{OPS}:rxso3_Ws'], max_paths=16,
+           note='callee contract assumed by C02.Sim3_Log (same contract function as C01.rxso3_Ws)')(_c01.ws)
